@@ -9,7 +9,7 @@ from gvsim.sim import Client, Raised, Sim, inject_rng, sut
 
 PROP = 'C05'
 TIERS = {'quick': {'runs': 2400, 'wall': 100}, 'thorough': {'runs': 60000, 'wall': 1500}}
-REACH = ['heading_BACKWARD', 'heading_LEFT', 'view_sticks_out_of_grid', 'scripted_first', 'scripted_last']  # probes / faults that must fire in every batch (reach gaps are reported in the evidence)
+REACH = ['heading_BACKWARD', 'heading_LEFT', 'view_sticks_out_of_grid', 'scripted_first', 'scripted_last', 'one_object_class_world']  # probes / faults that must fire in every batch (reach gaps are reported in the evidence)
 RULE = ('one run = a free-form world without mandatory boundary, one built-in observation function (registry or '
         'factory) and one view area (any extent, asymmetric, origin inside or - where tolerated - outside), and a '
         'walking client that turns / moves / is placed on edges and corners and reads after every move (directly, and '
@@ -72,6 +72,8 @@ def execute(record, ctx):
     obs_f = V.mk_obs_function(name, area, record['via_factory'], record.get('vis'))
     if record.get('vis'):
         ctx.probe('from_visibility_with_built_visibility_function')
+    if record['world'].get('monotype'):
+        ctx.probe('one_object_class_world')
     state = mk_state(record['world'])
     vh, vw = M.view_shape(area)
     env = None
